@@ -42,8 +42,10 @@ def gen_family(rng, n_roots=(1, 3), n_cond=(2, 8), n_rdm=(1, 4)):
     rtyp = rng.pick(['int', 'str', 'float'])
     fneg = rng.chance(0.2)       # some negative dissimilarities (family-wide)
     fdtype = rng.pick(['float64', 'float64', 'float64', 'float64', 'int64', 'float32'])     # dtype of the stacks handed to the constructor
-    styp = rng.pick(['str', 'str', 'int'])     # object-level descriptor values incl. falsy ones ('' / 0), one type per family
-    sess_vals = ['s1', 's2', '', 's7'] if styp == 'str' else [0, 1, 2, 0]
+    styp = rng.pick(['str', 'str', 'int', 'bigint', 'tiny'])     # object-level descriptor values incl. falsy ones ('' / 0), one type per family
+    # (numbers that differ in the tenth digit -- acquisition ids, time stamps -- or far below one are different values)
+    sess_vals = {'str': ['s1', 's2', '', 's7'], 'int': [0, 1, 2, 0], 'bigint': [2023100401, 2023100402, 2023100403, 2023100401],
+                 'tiny': [1e-9, 2e-9, 0.0, 1e-9]}[styp]
     wgt = rng.chance(0.4)      # a float64 ndarray rdm descriptor usable as weights      # one label type per descriptor across the family (mixed-type columns are coerced by numpy)
     for _ in range(rng.randint(*n_roots)):
         nr = rng.randint(*n_rdm)
@@ -550,7 +552,8 @@ class RdmsOps:
                 # object-level descriptors that differ between the partials are demoted to rdm_descriptors
                 od = dict(part.descriptors)
                 v0 = od.get('session', 's1')
-                od['session'] = (['', 's1', 's9'] if isinstance(v0, str) else [0, 4, 9])[(o['a'][1] + k) % 3]
+                od['session'] = (['', 's1', 's9'] if isinstance(v0, str) else [0.0, 3e-9, 1e-9] if isinstance(v0, float)
+                                 else [v0, v0 + 1, v0 + 2] if abs(v0) > 1000 else [0, 4, 9])[(o['a'][1] + k) % 3]
                 part.descriptors = od
             parts.append(part)
         exp_od = self._expected_odesc(parts)
@@ -566,10 +569,37 @@ class RdmsOps:
                 union.append(spare[o['a'][3] % len(spare)])
             r.shuffle(union)
             kw['all_patterns'] = union
+            if o['a'][4] % 4 == 0 and len(union) > 2:
+                # a list that lacks a condition one of the partials holds: whatever the call does with it (it refuses),
+                # the caller's list stays as it was
+                held = [c for c in union if any(c in normlist(p_.pattern_descriptors['uid']) for p_ in parts)]
+                if held:
+                    union.remove(held[o['a'][5] % len(held)])
+                    kw['incomplete'] = True
+        incomplete = kw.pop('incomplete', False)
+        given = list(kw['all_patterns']) if 'all_patterns' in kw else None
+
+        def _list_kept(outcome):
+            if given is not None and (len(kw['all_patterns']) != len(given)
+                                      or any(norm(a_) != norm(b_) for a_, b_ in zip(kw['all_patterns'], given))):
+                self.pool.report('C12', 'plain_argument', f'argument-changed:from_partials:all_patterns:{outcome}',
+                                 f'from_partials changed the caller\'s all_patterns list from {given} to {kw["all_patterns"]}')
+            elif given is not None:
+                self.ctx.probe('plain_argument_kept:from_partials:' + outcome)
         try:
             res = from_partials(parts, descriptor='uid', **kw)
         except Exception as e:
+            _list_kept('raised')
+            if incomplete:
+                self.pool.sweep('from_partials', args=[src.sid])
+                self.ctx.behaviour('from_partials', 'incomplete-list', type(e).__name__)
+                return
             return self._raise('from_partials', e)
+        _list_kept('returned')
+        if incomplete:
+            # accepted after all: nothing to compare the result with
+            self.pool.sweep('from_partials', args=[src.sid])
+            return
         self._check_odesc(res, exp_od, 'from_partials')
         ru, order, present = [], list(kw.get('all_patterns', [])), set()
         for part in parts:
